@@ -4,6 +4,7 @@ from engine import cfg
 from .common import (Table, client_dispatch_poll, reachable_local_fns, norm_path, guarded_by_variant, result_of, in_module)
 from .server_common import Server
 
+EXTRA_CONFIGS = ('default', 'tokio1', 'serde1', 'serde-transport')   # feature configurations re-analysed in the thorough tier
 META = {
     'level': 'other',
     'technique': 'static table rule: every transport call site\'s error is mapped (closure provenance) to the ChannelError variant naming that activity; variant-preserving conversions; '
